@@ -367,6 +367,9 @@ pub struct XmlNameOk {
     pub create_parsed: Result<usize, String>,
     pub with_default: (String, bool),
     pub suffixed_full: String,
+    /// the remaining constructors / accessors of the name types, judged on the spot
+    /// (implementation only): violated laws
+    pub constructor_laws_broken: Vec<String>,
 }
 
 fn triple(o: &OwnedName) -> (String, String, String) {
@@ -413,6 +416,49 @@ pub fn xmlname_obs(xot: &Xot, vocab: &Vocab, node: Node) -> Vec<XmlNameObs> {
                 Err(e) => Err(format!("?{:?}", e)),
             };
             let wd = o.clone().with_default_namespace("urn:b");
+            // the other constructors (after everything the model line reports: they may intern names)
+            let mut broken: Vec<String> = vec![];
+            {
+                let (l, n, p) = triple(&o);
+                if r.namespace_id() != xot.namespace_for_name(vocab.name(i)) {
+                    broken.push("RefName::namespace_id differs from namespace_for_name".to_string());
+                }
+                if triple(&OwnedName::new(l.clone(), n.clone(), p.clone())) != (l.clone(), n.clone(), p.clone()) {
+                    broken.push("OwnedName::new does not keep its three strings".to_string());
+                }
+                if triple(&OwnedName::name(&l)) != (l.clone(), String::new(), String::new()) {
+                    broken.push("OwnedName::name is not (local, no namespace, no prefix)".to_string());
+                }
+                // namespaced: the prefix comes from the lookup, here prefix_for_namespace in this scope
+                let by_ns = |uri: &str| xot.namespace(uri).and_then(|ns| xot.prefix_for_namespace(node, ns)).map(|p| xot.prefix_str(p).to_string());
+                match (OwnedName::namespaced(l.clone(), n.clone(), by_ns), by_ns(&n)) {
+                    (Ok(o3), Some(pfx)) if triple(&o3) == (l.clone(), n.clone(), pfx.clone()) => {}
+                    (Err(Error::MissingPrefix(u)), None) if u == n => {}
+                    (got, want) => broken.push(format!("OwnedName::namespaced: {:?} with lookup result {:?}", got.map(|o| triple(&o)), want)),
+                }
+                match (OwnedName::prefixed(&p, &l, lookup_str), lookup_str(&p)) {
+                    (Ok(o3), Some(uri)) if triple(&o3) == (l.clone(), uri.clone(), p.clone()) => {}
+                    (Err(Error::UnknownPrefix(u)), None) if u == p => {}
+                    (got, want) => broken.push(format!("OwnedName::prefixed: {:?} with lookup result {:?}", got.map(|o| triple(&o)), want)),
+                }
+                let ns_id = xs.namespace(&n).expect("standard vocabulary");
+                let cns = xot::xmlname::CreateNamespace::new(&mut xs, &p, &n);
+                if name_num(CreateName::namespaced(&mut xs, &l, &cns).name_id()) != i {
+                    broken.push("CreateName::namespaced(local, CreateNamespace::new(prefix, namespace)) is not the name".to_string());
+                }
+                match CreateName::prefixed(&mut xs, &p, &l, |_| Some(ns_id)) {
+                    Ok(c) if name_num(c.name_id()) == i => {}
+                    other => broken.push(format!("CreateName::prefixed with the name's namespace: {:?}", other.map(|c| name_num(c.name_id())))),
+                }
+                match CreateName::prefixed(&mut xs, &p, &l, |_| None) {
+                    Err(Error::UnknownPrefix(u)) if u == p => {}
+                    other => broken.push(format!("CreateName::prefixed with a failing lookup: {:?}", other.map(|c| name_num(c.name_id())))),
+                }
+                let plain = CreateName::name(&mut xs, &l).name_id();
+                if xs.local_name_str(plain) != l || xs.namespace_for_name(plain) != xs.no_namespace() {
+                    broken.push("CreateName::name is not the local name in no namespace".to_string());
+                }
+            }
             XmlNameObs {
                 name: i,
                 ok: Ok(XmlNameOk {
@@ -430,6 +476,7 @@ pub fn xmlname_obs(xot: &Xot, vocab: &Vocab, node: Node) -> Vec<XmlNameObs> {
                     create_parsed,
                     with_default: (wd.namespace().to_string(), wd.in_default_namespace()),
                     suffixed_full: sfx.full_name().to_string(),
+                    constructor_laws_broken: broken,
                 }),
             }
         })
@@ -506,6 +553,12 @@ pub fn check_xmlnames(sink: &mut Sink, xot: &Xot, vocab: &Vocab, t: &GTree, path
             fail(sink, "C09", "C09:with_suffix-to_create-round-trip-differs", &format!("name {}: maybe_to_ref before {:?}, to_create {}, after {:?}, full name {:?}", name, k.before, k.created, k.after, k.suffixed_full), t, path, "xmlname");
         } else {
             sink.stat("xmlname.round-trip.with_suffix-to_create");
+        }
+        for b in &k.constructor_laws_broken {
+            fail(sink, "C09", "C09:name-type-constructor-law-broken", &format!("name {}: {}", name, b), t, path, "xmlname");
+        }
+        if k.constructor_laws_broken.is_empty() {
+            sink.stat("xmlname.constructors.new-name-namespaced-prefixed-ok");
         }
         // with_default_namespace only touches an unprefixed no-namespace name
         let want_wd = if k.owned.1.is_empty() && k.owned.2.is_empty() { ("urn:b".to_string(), true) } else { (k.owned.1.clone(), k.in_default) };
